@@ -430,6 +430,18 @@ def gen_roundtrip_programs(r, n, big=0.03):
                 ops.append(f"read_hash {rf} c0 {st}"); reads.append(len(ops) - 1)
                 ops.append(f"exists {rf} c0 {st}")
             expect.append((widx, algo, d, reads, key))
+            # the key is written again with an explicit time stamp OLDER than its current entry's: position
+            # in the index decides what is current, not the clock
+            if key is not None and r.chance(0.2):
+                dnew = G.data(r, r.pick([1, 50])) + b"newer"
+                _, w2 = w_stream(ids, r.pick("sa"), key, dnew, [dnew], algo=algo, time=r.pick([0, 1, 1000]))
+                ops += w2
+                widx3 = len(ops) - 1
+                reads3 = []
+                for rf in "sa":
+                    ops.append(f"read {rf} c0 {hx(key)}"); reads3.append(len(ops) - 1)
+                expect.append((widx3, algo, dnew, reads3, key))
+                continue
             # the stored copy is damaged behind the library's back, then the same data is written again:
             # the write must leave the right bytes at the address (re-writing repairs), and read back
             if r.chance(0.25) and len(d) > 0:
@@ -784,7 +796,19 @@ def gen_shared_removal_programs(r, n):
         ops, rem = [], []
         for k in ks:
             ops.append(w_oneshot(r.pick("sa"), algo, k, d))
-        first = r.pick(["remove_fully", "remove_hash"])
+        first = r.pick(["remove_fully", "remove_hash", "remove_then_fully"])
+        if first == "remove_then_fully":
+            # the key is removed (tombstone) and THEN removed fully: it owns no content any more, the content the
+            # other keys share must survive
+            ops.append(f"remove {r.pick('sa')} c0 {hx(ks[0])}")
+            ops.append(f"remove_fully {r.pick('sa')} c0 {hx(ks[0])}")
+            for k in ks[1:]:
+                for fl in "sa":
+                    ops.append(f"read {fl} c0 {hx(k)}"); rem.append((len(ops) - 1, ("read", k)))
+            ops.append(f"read_hash s c0 {sri_tok(algo, d)}"); rem.append((len(ops) - 1, ("read", None)))
+            progs.append(Program(f"sharedrm{i}", ops, tags={"removals": rem, "keys": ks, "data": d,
+                                                            "variety": ("sharedrm", first, len(ks))}))
+            continue
         if first == "remove_fully":
             ops.append(f"remove_fully {r.pick('sa')} c0 {hx(ks[0])}"); rem.append((len(ops) - 1, ks[0]))
         else:
@@ -804,6 +828,12 @@ def mon_shared_removal(rr):
     t = rr.prog.tags
     for idx, k in t.get("removals", []):
         if idx >= len(rr.impl):
+            continue
+        if isinstance(k, tuple):          # ("read", key): content shared with a removed key must still be there
+            rdr = toks(rr.impl[idx])
+            if rdr[0] != "ok" or unhx(rdr[1]) != t["data"]:
+                out.append(Failure("removal_took_shared_content", idx, f"{rr.prog.ops[idx][:40]} after remove + remove_fully of "
+                                   f"ANOTHER key with the same bytes -> {' '.join(rdr[:3])[:40]}", sig={"op": "remove_fully"}))
             continue
         res = toks(rr.impl[idx])
         op = rr.prog.ops[idx].split(" ")
@@ -1493,6 +1523,14 @@ def gen_linkto_programs(r, n):
             ops.append(f"metadata {f2} c0 {hx(key)}")
         ops.append(f"stat c0/{L.content_rel(L.sri_of('sha256', d))}")
         ops.append(f"cat tgt/{name}")
+        # extracting the linked entry ONTO its own target (the destination is the file the cache links to)
+        # must never modify the target
+        onto = mode in ("oneshot", "partial") and r.chance(0.5)
+        if onto:
+            ops.append(f"{r.pick(['copy', 'copy_unchecked', 'copy_hash'])} {r.pick('sa')} c0 "
+                       f"{hx(key) if True else ''} tgt/{name}".replace("copy_hash " + "s c0 " + hx(key), "copy_hash s c0 " + st).replace("copy_hash " + "a c0 " + hx(key), "copy_hash a c0 " + st))
+            ops.append(f"cat tgt/{name}")
+            tags["onto_target"] = len(ops) - 1
         # later change of the target
         change = r.pick(["modify", "remove", "none"])
         if change == "modify":
@@ -1552,6 +1590,12 @@ def mon_linkto(rr):
     cat = toks(rr.impl[o + 7])
     if cat[0] != "ok" or unhx(cat[1]) != d:
         out.append(Failure("target_modified", o + 7, "target file changed by link_to", sig=sig))
+    ot = t.get("onto_target")
+    if ot is not None and ot < len(rr.impl):
+        c2 = toks(rr.impl[ot])
+        if c2[0] != "ok" or unhx(c2[1]) != d:
+            got = "missing" if c2[0] != "ok" else f"{len(unhx(c2[1]))} bytes"
+            out.append(Failure("target_modified", ot, f"{rr.prog.ops[ot - 1].split(' ')[0]} of the linked entry onto its own target left the target {got}", sig=sig))
     if t["change"] != "none" and t["mode"] != "preexisting":
         for j in range(t["late"], min(len(rr.impl), t["late"] + 4)):
             rj = toks(rr.impl[j])
@@ -1777,6 +1821,22 @@ def gen_size_matrix(r):
                     ops += [f"read_hash s c0 {st}", f"read_hash a c0 {st}", "dump c0/content-v2", "dump c0/tmp"]
                     progs.append(Program(f"matrix{n}", ops, tags={"variety": (fl, keyed, rel, shape), "matrix": (rel, commit, algo, d)}))
                     n += 1
+            # a size declared and NOTHING written, while another key holds the empty value: the rejected
+            # writer's preallocated zeros must not land on the address of the empty string
+            for decl in (1, 16, 4096):
+                ids = G.Ids()
+                algo = r.pick(L.ALGOS)
+                key = f"m{n}".encode()
+                pre = [w_oneshot(r.pick("sa"), algo, b"holds-empty", b"")]
+                _, ops = w_stream(ids, fl, key if keyed else None, b"", [], algo=algo, size=decl)
+                ops = pre + ops
+                commit = len(ops) - 1
+                st = sri_tok(algo, b"")
+                ops += [f"read_hash s c0 {st}", f"read_hash a c0 {st}", "dump c0/content-v2", "dump c0/tmp",
+                        f"read s c0 {hx(b'holds-empty')}"]
+                progs.append(Program(f"matrix{n}", ops, tags={"variety": (fl, keyed, "gt-empty", decl), "matrix": ("gt", commit, algo, b""),
+                                                              "holds_empty": len(ops) - 1}))
+                n += 1
             # declared sizes at and beyond the mapping threshold with far fewer bytes supplied: whatever
             # preallocation the writer did must not reach the content area
             for big in (G.MMAP, G.MMAP + 1, 3 * G.MMAP):
@@ -1821,4 +1881,10 @@ def mon_size_matrix(rr):
                 out.append(Failure("partial_or_wrong_content_file", j, "the content published by a size-mismatching write does not match its address", sig=sig))
     if norm(rr.impl[commit + 4]) != "ok":
         out.append(Failure("tmp_left", commit + 4, "temp file left behind", sig=sig))
+    he = rr.prog.tags.get("holds_empty")
+    if he is not None and he < len(rr.impl):
+        rd = toks(rr.impl[he])
+        if rd[0] != "ok" or (len(rd) > 1 and unhx(rd[1]) != b""):
+            out.append(Failure("rejected_commit_broke_other_key", he, f"a key holding the empty value reads {' '.join(rd[:2])[:40]} "
+                               "after a rejected declared-size commit that wrote nothing", sig=sig))
     return out
